@@ -129,7 +129,7 @@ def rewrite_cases(rng, n, readers=("cursor", "strict", "lenient"), sparse=True, 
         big_gap = sparse and rng.random() < 0.15
         if big_gap:
             # gaps of 2^31..2^32 make the real sanitizer return a multi-GiB padding box: only a few per run
-            g = rng.choice([2**31 - 1, 2**31, 2**31 + 1, 2**32 - 9, 2**32 - 8]) if rng.random() < huge else rng.choice([2**32 - 7, 2**32 + 5, 2**20, 2**33])
+            g = rng.choice([2**31 - 1, 2**31, 2**31 + 1, 2**32 - 9, 2**32 - 8]) if rng.random() < huge else rng.choice([2**32 + 4096, 2**20, 2**33, 2**16])
             L.add(box(b"free", b"", form="64", size=g), virtual=g)
         media_start = L.total()
         nmd = rng.choice([1, 1, 2, 3])
@@ -320,7 +320,7 @@ def huge_pad_cases():
 
 def standard_stream(run, rewrite_n, mut_n, seq_len, seq_sample=None):
     rng = run.rng
-    if run.tier == "thorough":
+    if run.tier == "thorough" or run.prop in ("C01", "C10"):
         yield from huge_pad_cases()
     for lay in seed_layouts(rng):
         for rd in ("cursor", "strict"):
